@@ -125,6 +125,7 @@ type c14Doc struct {
 	Malform  string // none | bad-regex | missing-from | missing-to | empty-service
 	Service2 bool
 	Second   string // "" | after | before: a second service of the SAME cluster that states no options at all
+	Slug     string // which blocks state a provider_slug of their own: "" | def | clu | ext | def+clu | def+ext
 }
 
 const c14SecondService = "- service: second\n  default:\n    from: second.{{cluster}}.sso.test\n    to: second-backend.{{root}}:7070\n"
@@ -159,8 +160,12 @@ func (d c14Doc) yaml() string {
 				sb.WriteString("    type: " + d.Type + "\n")
 			}
 		}
-		if mask != 0 || (tag == "def" && d.Malform == "bad-regex") {
+		slugHere := strings.Contains(d.Slug, tag)
+		if mask != 0 || slugHere || (tag == "def" && d.Malform == "bad-regex") {
 			sb.WriteString("    options:\n")
+			if slugHere {
+				sb.WriteString("      provider_slug: idp-" + tag + "\n")
+			}
 			for _, o := range subsetNames(mask) {
 				sb.WriteString(c14YAML(o, tag, "      "))
 				if o == "skip_auth_regex" && tag == "def" && d.Malform == "bad-regex" {
@@ -173,8 +178,14 @@ func (d c14Doc) yaml() string {
 		}
 		if withRoute && d.Extra != "none" {
 			sb.WriteString("    extra_routes:\n      - from: extra.{{cluster}}.sso.test\n        to: extra-backend.{{root}}:9090\n")
-			if d.Extra != "bare" {
-				sb.WriteString("        options:\n" + c14YAML(d.Extra, "ext", "          "))
+			if d.Extra != "bare" || strings.Contains(d.Slug, "ext") {
+				sb.WriteString("        options:\n")
+				if strings.Contains(d.Slug, "ext") {
+					sb.WriteString("          provider_slug: idp-ext\n")
+				}
+				if d.Extra != "bare" {
+					sb.WriteString(c14YAML(d.Extra, "ext", "          "))
+				}
 			}
 		}
 	}
@@ -245,7 +256,7 @@ func c14Run(c *fw.Ctx) {
 		viol := func(key, what string) {
 			c.Res.Violate(fw.Violation{Property: "C14", Key: "C14/" + key, What: what, Scenario: scenario, Choices: x.Choices(), Detail: desc})
 		}
-		sig := fmt.Sprintf("%s|D=%d|C=%d|%s|%s|%s|%s|%s|err=%v", d.Blocks, d.D, d.C, d.Extra, d.Type, d.Env, d.Malform, d.Second, err != nil)
+		sig := fmt.Sprintf("%s|D=%d|C=%d|%s|%s|%s|%s|%s|%s|err=%v", d.Blocks, d.D, d.C, d.Extra, d.Type, d.Env, d.Malform, d.Second, d.Slug, err != nil)
 		c.Res.Outcome(sig)
 		if c.Res.Execs%5000 == 77 {
 			c.Res.Sample(desc)
@@ -340,6 +351,21 @@ func c14Run(c *fw.Ctx) {
 					viol("template-not-substituted/options", "allowed group "+g)
 				}
 			}
+			// the identity provider of this upstream: extra route over cluster block over default block over
+			// the deployment default
+			wantSlug := "idp"
+			if d.Blocks != "cluster" && strings.Contains(d.Slug, "def") {
+				wantSlug = "idp-def"
+			}
+			if d.Blocks != "default" && strings.Contains(d.Slug, "clu") {
+				wantSlug = "idp-clu"
+			}
+			if isExtra && strings.Contains(d.Slug, "ext") {
+				wantSlug = "idp-ext"
+			}
+			if u.ProviderSlug != wantSlug {
+				viol(scope+"/provider-slug", fmt.Sprintf("%s %s: provider_slug should resolve to %q, got %q", scope, u.RouteConfig.From, wantSlug, u.ProviderSlug))
+			}
 			for _, o := range c14Opts {
 				want, from := ref(o)
 				if isExtra && d.Extra == o {
@@ -380,6 +406,26 @@ func c14Run(c *fw.Ctx) {
 			check(x, d, "merge")
 		}
 	})
+	// sweep 1a: blocks that state an identity provider of their own (provider_slug) next to, or instead of,
+	// allow rules: which provider an upstream uses never changes which rules it inherits
+	slugs := []string{"def", "clu", "ext", "def+clu", "def+ext", "clu+ext"}
+	masks := []int{0, 1, 2, 8, 1 | 2, 1 | 8, 2 | 8, 1 | 2 | 8} // subsets of {groups, domains, skip_auth_regex}
+	drive(c, "merge-with-provider-slug", -1, func(x *explore.Exec, owned bool) {
+		d := c14Doc{Malform: "none"}
+		d.Blocks = blocks[x.Choose("blocks", 3)]
+		if d.Blocks != "cluster" {
+			d.D = masks[x.Choose("default-options", len(masks))]
+		}
+		if d.Blocks != "default" {
+			d.C = masks[x.Choose("cluster-options", len(masks))]
+		}
+		d.Extra = []string{"none", "bare", "allowed_groups"}[x.Choose("extra-route", 3)]
+		d.Env = envs[x.Choose("env-defaults", 3)]
+		d.Slug = slugs[x.Choose("provider-slug-stated-by", len(slugs))]
+		if owned {
+			check(x, d, "merge-with-provider-slug")
+		}
+	})
 	// sweep 1b: a neighbouring service of the same cluster that states nothing
 	seconds := []string{"after", "before"}
 	shapes2 := [][2]int{{0, 0}, {63, 0}, {0, 63}, {1 | 8, 16}, {2 | 4, 1 | 32}, {8 | 16 | 32, 0}}
@@ -401,14 +447,18 @@ func c14Run(c *fw.Ctx) {
 		probe := probes[x.Choose("skip-pattern-value", len(probes))]
 		owner := owners[x.Choose("address-value", len(owners))]
 		label := []string{"t", "httpbin", "https-redirector", "ftp"}[x.Choose("host-label", 4)]
+		// a variable that is exported with an empty value (an environment suffix that is empty in production)
+		suffix := []string{"-x", ""}[x.Choose("suffix-value", 2)]
 		if !owned {
 			return
 		}
+		os.Setenv("SSO_CONFIG_SUFFIX", suffix)
+		defer os.Unsetenv("SSO_CONFIG_SUFFIX")
 		os.Setenv("SSO_CONFIG_PROBE", probe)
 		os.Setenv("SSO_CONFIG_OWNER", owner)
 		defer os.Unsetenv("SSO_CONFIG_PROBE")
 		defer os.Unsetenv("SSO_CONFIG_OWNER")
-		doc := "- service: templated\n  default:\n    from: " + label + ".{{cluster}}.sso.test\n    to: " + label + "-backend.{{root}}:8080\n    options:\n      skip_auth_regex:\n        - '{{probe}}'\n      allowed_email_addresses:\n        - '{{owner}}'\n"
+		doc := "- service: templated\n  default:\n    from: " + label + ".{{cluster}}.sso.test\n    to: " + label + "-backend.{{root}}:8080\n    options:\n      skip_auth_regex:\n        - '{{probe}}'\n      allowed_email_addresses:\n        - '{{owner}}'\n      allowed_groups:\n        - 'admins{{suffix}}'\n      header_overrides:\n        X-Env: 'env{{suffix}}'\n"
 		if err := os.WriteFile(file, []byte(doc), 0o644); err != nil {
 			panic(err)
 		}
@@ -417,12 +467,12 @@ func c14Run(c *fw.Ctx) {
 		uc.DefaultConfig.ProviderSlug = "idp"
 		err := proxy.SetUpstreamConfigs(uc, proxy.CookieConfig{Name: "_sso_proxy"}, &proxy.ServerConfig{})
 		ups := proxy.VerifUpstreamConfigs(uc)
-		c.Res.Outcome(fmt.Sprintf("template-values|%s|%s|%s|err=%v", probe, owner, label, err != nil))
+		c.Res.Outcome(fmt.Sprintf("template-values|%s|%s|%s|%q|err=%v", probe, owner, label, suffix, err != nil))
 		if err != nil {
 			c.Res.Count("rejected_documents", 1)
 			return
 		}
-		desc := map[string]interface{}{"document": doc, "SSO_CONFIG_PROBE": probe, "SSO_CONFIG_OWNER": owner}
+		desc := map[string]interface{}{"document": doc, "SSO_CONFIG_PROBE": probe, "SSO_CONFIG_OWNER": owner, "SSO_CONFIG_SUFFIX": suffix}
 		viol := func(key, what string) {
 			c.Res.Violate(fw.Violation{Property: "C14", Key: "C14/" + key, What: what, Scenario: "template-values", Choices: x.Choices(), Detail: desc})
 		}
@@ -436,6 +486,12 @@ func c14Run(c *fw.Ctx) {
 		}
 		if len(u.SkipAuthCompiledRegex) != 1 || u.SkipAuthCompiledRegex[0].String() != probe {
 			viol("template-value-altered/skip_auth_regex", fmt.Sprintf("SSO_CONFIG_PROBE=%q but the compiled skip pattern is %v", probe, u.SkipAuthCompiledRegex))
+		}
+		if len(u.AllowedGroups) != 1 || u.AllowedGroups[0] != "admins"+suffix {
+			viol("template-value-altered/allowed_groups", fmt.Sprintf("SSO_CONFIG_SUFFIX=%q but the allowed groups are %q", suffix, u.AllowedGroups))
+		}
+		if u.HeaderOverrides["X-Env"] != "env"+suffix {
+			viol("template-value-altered/header_overrides", fmt.Sprintf("SSO_CONFIG_SUFFIX=%q but the header override is %q", suffix, u.HeaderOverrides["X-Env"]))
 		}
 		if len(u.AllowedEmailAddresses) != 1 || u.AllowedEmailAddresses[0] != owner {
 			viol("template-value-altered/allowed_email_addresses", fmt.Sprintf("SSO_CONFIG_OWNER=%q but the allowed addresses are %v", owner, u.AllowedEmailAddresses))
@@ -500,6 +556,7 @@ func init() {
 		Level: "exploration",
 		Rule: "every document of a grammar, loaded through proxy.SetUpstreamConfigs for cluster `prod` with template variables in from/to/options: (merge) blocks {default only, cluster only, both} x options stated by the default block (all 64 subsets of groups, domains, addresses, skip_auth_regex, timeout, header_overrides) x options stated by the cluster block (64 subsets) x extra route {none, bare, stating groups / skip list / timeout (thorough: each of the six options)} x deployment defaults {none, domain, group}; " +
 			"(two-services) a second service of the same cluster that states no options, before or after the first, must resolve to the deployment defaults only; (fail-closed) route type {omitted, simple, rewrite, unknown} x malformation {none, bad skip regex, missing from, missing to, empty service, unbalanced rewrite regexp} x defaults x option shapes x extra route x a second service configured for another cluster only. " +
+			"(merge-with-provider-slug) the same merge with a provider_slug stated by {default, cluster, extra route, default+cluster, default+extra, cluster+extra} blocks x 8 subsets of {groups, domains, skip list} per block: the slug resolves block over block, and stating one never changes which rules are inherited; (template-values) adds a variable exported with an EMPTY value, referenced inside a group name and a header value; " +
 			"Oracle: an error is always acceptable; otherwise every upstream has its service name, a resolved route, substituted templates, as many compiled skip patterns as listed, at least one allow rule, and every option equals the field-by-field reference merge (cluster block over default block over deployment default; extra route over its parent); " +
 			"distinct_nontrivial = distinct (blocks, subsets, extra, type, defaults, malformation, accepted?) documents",
 		Assumptions:    []string{"one or two services per document (plus an optional service configured for another cluster only); option values are distinguishable per block"},
